@@ -171,6 +171,13 @@ def versions():
     d.append("DeepV1 ::= SEQUENCE { a BOOLEAN, ..., i InnerV1 OPTIONAL }")
     d.append("DeepV2 ::= SEQUENCE { a BOOLEAN, ..., i InnerV2 OPTIONAL, z INTEGER (0..255) OPTIONAL }")
     d.append("DeepV3 ::= SEQUENCE { a BOOLEAN, ..., i InnerV3 OPTIONAL, z INTEGER (0..255) OPTIONAL, l SEQUENCE OF InnerV3 OPTIONAL }")
+    # an untagged extensible CHOICE inside a SET with explicit tags: the position of the CHOICE among the
+    # SET's components is decided by its ROOT alternatives only (an added alternative with a smaller tag
+    # must not move it)
+    d.append("SelV1 ::= CHOICE { code [5] INTEGER (0..255), ... }")
+    d.append("SelV2 ::= CHOICE { code [5] INTEGER (0..255), ..., label [1] UTF8String (SIZE(0..5)) }")
+    d.append("HoldV1 ::= SET { selector SelV1, level [3] INTEGER (0..255) }")
+    d.append("HoldV2 ::= SET { selector SelV2, level [3] INTEGER (0..255) }")
     d.append("WrapV1 ::= SEQUENCE { m MsgV1, tail INTEGER (0..255) }")
     d.append("WrapV2 ::= SEQUENCE { m MsgV2, tail INTEGER (0..255) }")
     d.append("WrapV3 ::= SEQUENCE { m MsgV3, tail INTEGER (0..255) }")
